@@ -619,6 +619,9 @@ pub fn process<I: BufRead, O: Write>(
                             }
                             // Double hash management
                             rex = rex.strip_suffix(',').unwrap().to_string();
+                        } else {
+                            // A macro without parameters may be called with layout between its parentheses
+                            rex += "\\s*";
                         }
                         rex += "\\)";
                         value = value.replace("##", ""); // Double hash
